@@ -126,8 +126,11 @@ class Facts:
             return True
         return all(f['freeze'] or f.get('copy') for v in a['variants'] for f in v['fields'])
 
-    def closures_of(self, path):
-        return self._closures.get(path, [])
+    def closures_of(self, path, raw=False):
+        """closures nested in function `path`; like every body handed to a rule, each is the view with new functions
+        analysed in place (a closure body moved into a private method still presents the same code)"""
+        cl = self._closures.get(path, [])
+        return cl if raw else [self.view(c) for c in cl]
 
     def family(self, body):
         """body together with all closures nested in it (and those of helpers analysed in place)"""
